@@ -213,3 +213,40 @@ void h_flip3_twice(void){
   OBS(out);
   REACHED();
 }
+
+/* moveaxis with lists of two axes: NumPy: order = [n for n in range(3) if n not in src]; for d, s in sorted(zip(dst, src)): order.insert(d, s) */
+void h_moveaxis3_list(void){
+  u64 shape[3], idx[4], os[4] = {0}, od = 0, srcidx[3], ex[4] = {0}, order[3]; u32 data[CELLS], s[2], d[2], out = 0;
+  in_shape(shape, 3); in_data(data, MAXE*MAXE*MAXE);
+  for (int i = 0; i < 2; i++){ s[i] = (u32)in_i32(-3, 2); d[i] = (u32)in_i32(-3, 2); }
+  u64 sn[2] = { norm(s[0], 3), norm(s[1], 3) }, dn[2] = { norm(d[0], 3), norm(d[1], 3) };
+  ASSUME(sn[0] != sn[1] && dn[0] != dn[1]);                 /* NumPy rejects repeated axes (invalid arguments: C15) */
+  { u64 rest = 3 - sn[0] - sn[1];                           /* the one axis that is not moved */
+    int first = dn[0] < dn[1] ? 0 : 1;                      /* sorted by normalised destination */
+    u64 lo_d = dn[first], hi_d = dn[1-first], lo_s = sn[first], hi_s = sn[1-first];
+    /* insert(lo_d, lo_s) then insert(hi_d, hi_s) into [rest]: the moved axes end up at positions lo_d < hi_d, the rest fills the remaining slot */
+    for (u64 k = 0; k < 3; k++) order[k] = (k == lo_d) ? lo_s : (k == hi_d) ? hi_s : rest; }
+  for (int i = 0; i < 3; i++) ex[i] = shape[order[i]];
+  in_index(idx, ex, 3);
+  int r = k_moveaxis3_list(shape, data, s, d, idx, 3, os, &od, &out);
+  ASSERT(r == 1 && od == 3, "valid axis lists accepted");
+  for (int i = 0; i < 3; i++){ ASSERT(os[i] == ex[i], "shape == NumPy moveaxis shape"); srcidx[order[i]] = idx[i]; }
+  ASSERT(out == data[horner(srcidx, shape, 3)], "element == NumPy moveaxis element (axis lists)");
+  OBS(out);
+  REACHED();
+}
+void h_flip3_list(void){
+  u64 shape[3], idx[4], os[4] = {0}, od = 0, src[3], ex[4] = {0}; u32 data[CELLS], ax[2], out = 0;
+  in_shape(shape, 3); in_data(data, MAXE*MAXE*MAXE);
+  for (int i = 0; i < 2; i++) ax[i] = (u32)in_i32(-3, 2);
+  u64 an[2] = { norm(ax[0], 3), norm(ax[1], 3) };
+  ASSUME(an[0] != an[1]);                                   /* NumPy rejects repeated axes */
+  for (int i = 0; i < 3; i++) ex[i] = shape[i];
+  in_index(idx, ex, 3);
+  int r = k_flip3_list(shape, data, ax, idx, 3, os, &od, &out);
+  ASSERT(r == 1 && od == 3, "ok");
+  for (u64 i = 0; i < 3; i++){ ASSERT(os[i] == shape[i], "flip keeps the shape"); src[i] = (i == an[0] || i == an[1]) ? shape[i] - 1 - idx[i] : idx[i]; }
+  ASSERT(out == data[horner(src, shape, 3)], "element == NumPy flip element (axis list)");
+  OBS(out);
+  REACHED();
+}
